@@ -95,7 +95,23 @@ def ion_case(rng):
     return {'kind': 'ions', 's': body % ion, 'all_atom': True, 'legacy': True}
 
 
+def prime(ctx=None):
+    # the helpers behind the guarantee are public and get called on plain molecule graphs as well (masses of molecules
+    # that never saw a resolver): such a call earlier in the process must not change what later molecules get
+    try:
+        import pysmiles
+        from cgsmiles.pysmiles_utils import compute_mass, rebuild_h_atoms
+        with lib.quiet():
+            compute_mass(pysmiles.read_smiles('CCO'))
+            rebuild_h_atoms(pysmiles.read_smiles('c1ccccc1N'))
+        if ctx is not None:
+            ctx.feature('plain-graph-helper-calls-first')
+    except Exception:    # noqa: BLE001
+        pass
+
+
 def run(ctx):
+    prime(ctx)
     rng = ctx.rng('resolve')
     for i in range(ctx.budget(450, 8000)):
         if ctx.out_of_time():
@@ -140,6 +156,7 @@ def replay(payload):
     import check
     ctx = check.Ctx(PROP, 'quick', 0)
     case = payload['case']
+    prime()
     if case.get('kind') == 'sampler':
         gen_sampler.run_sampler_case(ctx, 'replay', case, oracle=lambda c, cs, mol, s: check_valence(c, cs, mol, 'sample') if mol is not None else None, compare=False)
     else:
